@@ -505,6 +505,16 @@ func (e *Engine) installExternals() {
 	x["encoding/json.Unmarshal"] = func(fr *frame, a []Value) Value {
 		return e.jsonUnmarshal(fr, a[0].([]Value), a[1].(Iface))
 	}
+	// trimming white space / a trailing newline off a document leaves the document
+	for _, name := range []string{"bytes.TrimSpace", "bytes.TrimSuffix", "bytes.TrimRight"} {
+		name := name
+		x[name] = func(fr *frame, a []Value) Value {
+			if _, ok := asDoc(a[0].([]Value)); ok {
+				return a[0]
+			}
+			panic(engineErr("%s on bytes that are not a JSON document is not modelled", name))
+		}
+	}
 	x["encoding/json.Valid"] = func(fr *frame, a []Value) Value { return e.jsonValid(a[0].([]Value)) }
 
 	// ---- os (files are not modelled)
@@ -667,6 +677,11 @@ func (e *Engine) installIntrinsics() {
 			return v
 		}
 		return a[1]
+	}
+	in["vJSONUnmarshalUseNumber"] = func(fr *frame, a []Value) Value {
+		e.jsonUseNumber = true
+		defer func() { e.jsonUseNumber = false }()
+		return e.jsonUnmarshal(fr, a[0].([]Value), a[1].(Iface))
 	}
 	in["vUnsupported"] = func(fr *frame, a []Value) Value {
 		panic(engineErr("model: %s", valString(normStr(a[0]))))
